@@ -19,6 +19,7 @@ def finish(prop, mod, recs, tier, seed, t0, replay_fn, verbose=False, bounded=No
     by_backend = {}
     solver_s = 0.0
     crashes, undecided, violations, known_hits, vacuous = [], [], [], {}, []
+    cand = []
     samples = []
     functions = {}
     trusted = set()
@@ -66,8 +67,14 @@ def finish(prop, mod, recs, tier, seed, t0, replay_fn, verbose=False, bounded=No
                     known_hits.setdefault(o["known_finding"], []).append(o)
                 else:
                     violations.append((rec, o))
+            elif o.get("candidate_model") is not None:
+                # ground instance satisfiable, full VC undecided: the candidate
+                # counter-model counts only if it replays on the real code
+                cand.append((rec, o))
             else:
-                undecided.append((o["name"], o.get("reason")))
+                # undecided: a guided concrete search of the same contract on the
+                # real code (in the replayer) may still find a failing input
+                cand.append((rec, o))
 
     # a case that generated nothing is a checker failure, not a pass
     floor = getattr(mod, "MIN_OBLIGATIONS", 1)
@@ -84,6 +91,25 @@ def finish(prop, mod, recs, tier, seed, t0, replay_fn, verbose=False, bounded=No
         lines.append(f"  replay: {detail}")
         replay_paths.append(path)
         rc = 1
+    tried = 0
+    searched = {}
+    for rec, o in cand:
+        reproduced, detail, path = (None, "not replayed (limit)", None)
+        key = (rec["case"])
+        if key in searched:
+            reproduced, detail, path = searched[key]
+        elif tried < 6:
+            tried += 1
+            reproduced, detail, path = replay_fn(prop, o, rec, tier)
+            searched[key] = (reproduced, detail, path)
+        if reproduced:
+            viol_count += 1
+            lines.append(f"VIOLATION property={prop} replay={path}")
+            lines.append(f"  obligation={o['name']} path={o['path']} (VC undecided by the solvers: {o.get('reason')}; failing input found by replay / guided search on the real code)")
+            lines.append(f"  replay: {detail}")
+            rc = 1
+        else:
+            undecided.append((o["name"], (o.get("reason") or "") + f" | candidate replay: {detail}"))
     for kid, obs in known_hits.items():
         kf = kf_by_id[kid]
         lines.append(f"KNOWN-FINDING: property={prop} {kf['what']} [obligations {', '.join(sorted(set(o['name'].split('::', 1)[1] for o in obs)))}; every witness in class: {kf['witness_class']}]")
